@@ -58,6 +58,12 @@ func (w *c08World) rec(store, style string, t boltz.EntityEventType, id, state s
 	w.mu.Unlock()
 }
 
+func (w *c08World) recAny(store, style, id string) {
+	w.mu.Lock()
+	w.events = append(w.events, fmt.Sprintf("%s|%s|any|%s|", store, style, id))
+	w.mu.Unlock()
+}
+
 func (w *c08World) early(msg string) {
 	w.earlyMu.Lock()
 	w.tooEarly = append(w.tooEarly, msg)
@@ -160,7 +166,10 @@ func (c *untypedConstraint) ProcessPostCommit(state boltz.UntypedEntityChangeSta
 	c.w.rec(c.store, "UntypedEntityConstraint", state.GetChangeType(), state.GetEntityId(), recSummary(c.store, e))
 }
 
-var c08Styles = []string{"EntityEventListener", "EntityEventListener/async", "EntityEventListenerF", "EntityEventListenerF/async", "Listener", "Listener/async", "EntityIdListener", "EntityIdListener/async", "EntityConstraint", "UntypedEntityConstraint"}
+var c08Styles = []string{"EntityEventListener", "EntityEventListener/async", "EntityEventListenerF", "EntityEventListenerF/async", "Listener", "Listener/async", "EntityIdListener", "EntityIdListener/async", "EntityConstraint", "UntypedEntityConstraint",
+	// one registration call naming all three change types (the event type is not passed to these callbacks, so the
+	// recorded type is "any" and the reference expects one such event per committed change of any type)
+	"Listener/all-types-at-once", "EntityIdListener/all-types-at-once", "EntityEventListenerF/all-types-at-once"}
 
 func newC08World() *c08World {
 	w := &c08World{}
@@ -182,6 +191,9 @@ func newC08World() *c08World {
 			s.AddEntityIdListener(func(id string) { w.rec(name, "EntityIdListener", st, id, "") }, st)
 			s.AddEntityIdListener(func(id string) { w.rec(name, "EntityIdListener/async", at, id, "") }, at)
 		}
+		s.AddListener(func(e boltz.Entity) { w.recAny(name, "Listener/all-types-at-once", e.GetId()) }, boltz.EntityCreated, boltz.EntityUpdated, boltz.EntityDeleted)
+		s.AddEntityIdListener(func(id string) { w.recAny(name, "EntityIdListener/all-types-at-once", id) }, boltz.EntityDeletedAsync, boltz.EntityCreatedAsync, boltz.EntityUpdatedAsync)
+		s.AddEntityEventListenerF(func(e *world.Rec) { w.recAny(name, "EntityEventListenerF/all-types-at-once", e.Id) }, boltz.EntityUpdated, boltz.EntityDeleted, boltz.EntityCreated)
 		s.AddEntityConstraint(&typedConstraint{w, name})
 		s.AddUntypedEntityConstraint(&untypedConstraint{w, name})
 	}
@@ -202,6 +214,10 @@ func (w *c08World) expectedEvents(info kOpInfo, pre, post *kModel) []string {
 			st := state
 			if strings.HasPrefix(style, "EntityIdListener") {
 				st = ""
+			}
+			if strings.HasSuffix(style, "/all-types-at-once") {
+				out = append(out, fmt.Sprintf("%s|%s|any|%s|", store, style, id))
+				continue
 			}
 			out = append(out, fmt.Sprintf("%s|%s|%s|%s|%s", store, style, typ, id, st))
 		}
@@ -363,6 +379,7 @@ func c08State(rep *report.Report, w *c08World, ops []explore.Op, bodies [][]int,
 			if info := w.k.opInfo[o]; (info.kind == "delete" || info.kind == "deleteIfPresent") && (info.via == "people" || info.via == "mgr" || info.via == "prof") {
 				if cur := pre.people[info.id]; cur != nil && !cur.prof {
 					optional["prof|deleted|"+info.id] = true
+					optional["prof|any|"+info.id] = true
 				}
 			}
 		}
